@@ -136,7 +136,7 @@ def classify(ctx: Ctx, spec: dict):
     clauses = spec["clauses"]
     seen = {}
     for f in ctx.failures:
-        if f["clause"] not in clauses:
+        if f["clause"] not in clauses or f.get("tainted"):
             continue
         if "backends" in spec and f["backend"] not in spec["backends"] and f["backend"] != "both":
             continue
@@ -213,7 +213,13 @@ def run_check(prop: str, tier: str, seed: int) -> int:
     viol, known = classify(ctx, spec)
     for k in known:
         print(f"KNOWN-FINDING: property={prop} {k['known']['id']}: {k['known']['description']} ({k['count']} occurrence(s))")
+    if os.path.isdir(REPLAYS):
+        for fn in os.listdir(REPLAYS):
+            if fn.startswith(prop + "-"):
+                os.remove(os.path.join(REPLAYS, fn))
     viol.sort(key=lambda v: (len(v["fail"]["moves"]), -v["count"]))
+    for v in viol[20:300]:
+        write_replay(prop, v)
     if len(viol) > 20:
         print(f"{len(viol)} distinct violation signatures; the 20 shortest are listed")
     for v in viol[:20]:
@@ -222,6 +228,14 @@ def run_check(prop: str, tier: str, seed: int) -> int:
         print(f"VIOLATION property={prop} replay={path}")
         print(f"  clause={f['clause']} backend={f['backend']} step={f['step']} occurrences={v['count']}: {f['detail'][:300]}")
         print(f"  moves: {json.dumps(f['moves'])[:600]}")
+    if viol and os.environ.get("VERIF_SUMMARY"):
+        from collections import Counter
+        cnt = Counter()
+        for v in viol:
+            f = v["fail"]
+            cnt[(f["clause"], f["backend"], f.get("exc") or "", " ".join(t for t in v["last"] if not t.startswith(("op:", "lit:", "arrange:"))))] += v["count"]
+        for k, n in sorted(cnt.items(), key=lambda x: -x[1]):
+            print("  SUMMARY", n, k)
     write_evidence(ctx, spec, len(viol), known)
     rs = ctx.replay_stats
     print(f"[{prop} {tier}] TLC distinct states {ctx.tlc_distinct}, behaviours replayed {ctx.behaviours}, "
